@@ -589,7 +589,8 @@ Lemma lines_loop_file : forall ls x rd fuel, sctx_good x -> file_ok x ls = true 
   | (n, it) :: rest =>
     exists x' ls' rd', lines_loop fuel (ctx_of x) rd = Ok (Some (line_of n it), ctx_of x', rd') /\
       sctx_good x' /\ file_ok x' ls' = true /\ r_rest rd' = render_file ls' /\ r_paren rd' = false /\ wfr rd' /\
-      r_fuel rd' = r_fuel rd /\ denote x' (p_line (r_pos rd')) ls' = rest /\ (length (r_rest rd') < length (r_rest rd))%nat
+      r_fuel rd' = r_fuel rd /\ denote x' (p_line (r_pos rd')) ls' = rest /\ (length (r_rest rd') < length (r_rest rd))%nat /\
+      (forall Q : aline -> Prop, Forall Q ls -> Forall Q ls')
   end.
 Proof.
   induction ls as [|l ls IH]; intros x rd fuel Hx Hok E P W L; (destruct fuel as [|fuel]; [lia|]).
@@ -617,12 +618,14 @@ Proof.
       pose proof (after_line_good x l Hx Hl) as Hx'.
       rewrite denote_cons. destruct (line_item x l) as [it|] eqn:Eit; cbn [option_map].
       * exists (after_line x l), ls, rd1. split; [reflexivity|]. split; [exact Hx'|]. split; [exact Hrest|].
-        split; [exact A1|]. split; [exact A2|]. split; [exact W1|]. split; [exact A4|]. split; [rewrite A3; reflexivity|lia].
+        split; [exact A1|]. split; [exact A2|]. split; [exact W1|]. split; [exact A4|]. split; [rewrite A3; reflexivity|]. split; [lia|].
+        intros Q HQ. inversion HQ; assumption.
       * specialize (IH _ rd1 fuel Hx' Hrest A1 A2 W1 ltac:(lia)). rewrite A3 in IH.
         destruct (denote (after_line x l) (p_line (r_pos rd) + count_nl (render_line l)) ls) as [|[n it] rest].
         -- destruct IH as (c' & rd' & F & B1 & B2 & B3). exists c', rd'. split; [exact F|]. split; [exact B1|]. split; [exact B2|congruence].
-        -- destruct IH as (x' & ls' & rd' & F & B1 & B2 & B3 & B4 & B5 & B6 & B7 & B8).
-           exists x', ls', rd'. split; [exact F|]. split; [exact B1|]. split; [exact B2|]. split; [exact B3|]. split; [exact B4|]. split; [exact B5|]. split; [congruence|]. split; [exact B7|lia].
+        -- destruct IH as (x' & ls' & rd' & F & B1 & B2 & B3 & B4 & B5 & B6 & B7 & B8 & B9).
+           exists x', ls', rd'. split; [exact F|]. split; [exact B1|]. split; [exact B2|]. split; [exact B3|]. split; [exact B4|]. split; [exact B5|]. split; [congruence|]. split; [exact B7|]. split; [lia|].
+           intros Q HQ. apply B9. inversion HQ; assumption.
 Qed.
 
 Definition items_of (l : list (N * aitem)) : list (line + (pos * zkind)) := map (fun nr => inl (line_of (fst nr) (snd nr))) l.
@@ -639,7 +642,7 @@ Proof.
     eexists. rewrite rev_fast_rev, app_nil_r. reflexivity.
   - assert (LL : (length (r_rest rd) < r_fuel rd)%nat) by (unfold wfr in W; lia).
     pose proof (lines_loop_file ls x rd (r_fuel rd) Hx Hok E P W LL) as H. rewrite Hd in H.
-    destruct H as (x' & ls' & rd' & F & B1 & B2 & B3 & B4 & B5 & B6 & B7 & B8).
+    destruct H as (x' & ls' & rd' & F & B1 & B2 & B3 & B4 & B5 & B6 & B7 & B8 & _).
     cbn [collect]. unfold parser_next. cbn [ps_error ps_rd ps_ctx]. rewrite F. cbn [bind].
     destruct (IH ls' x' rd' fuel (inl (line_of n it) :: acc) B7 B1 B2 B3 B4 B5 ltac:(lia)) as (p' & Hc).
     exists p'. rewrite Hc. cbn [rev items_of map fst snd]. rewrite <- app_assoc. reflexivity.
@@ -653,6 +656,55 @@ Theorem file_roundtrip ls : file_ok sctx0 ls = true ->
 Proof.
   intros Hok. unfold parse_all, parser_new, render, number_lines. rewrite ctx0_of.
   destruct (collect_file (denote sctx0 1 ls) ls sctx0 (rd_new (render_file ls)) (S (S (length (render_file ls)))) [] eq_refl) as (p & H);
+    [intros ols Ho; discriminate|exact Hok|reflexivity|reflexivity|unfold wfr, rd_new; cbn; lia|unfold rd_new; cbn; lia|].
+  exists p. exact H.
+Qed.
+
+(* ---- the records-only iterator (what the zone loader consumes) on rendered files --------------------------------------------------- *)
+
+From QV Require Import Model.ZfRecOnly.
+
+Definition no_include (ls : list aline) : Prop := Forall (fun l => match l with LInclude _ _ _ _ _ _ => False | _ => True end) ls.
+
+Fixpoint records_of (its : list (N * aitem)) : list (ro_line + (pos * zkind)) :=
+  match its with
+  | [] => []
+  | (n, IRecord r) :: rest => inl (mkRoLine n (rr_of r)) :: records_of rest
+  | (_, IInclude _ _) :: rest => records_of rest
+  end.
+
+Lemma denote_no_include : forall ls x n, no_include ls -> Forall (fun nit => exists r, snd nit = IRecord r) (denote x n ls).
+Proof.
+  induction ls as [|l ls IH]; intros x n H; [constructor|]. inversion H as [|? ? Hl Hls]; subst. rewrite denote_cons.
+  destruct l; cbn [line_item]; try (apply IH; exact Hls); [|contradiction]. constructor; [eexists; reflexivity|apply IH; exact Hls].
+Qed.
+
+Lemma ro_collect_file : forall recs ls x rd fuel acc, denote x (p_line (r_pos rd)) ls = recs -> no_include ls ->
+  sctx_good x -> file_ok x ls = true -> r_rest rd = render_file ls -> r_paren rd = false -> wfr rd ->
+  (length (r_rest rd) < fuel)%nat ->
+  exists p', ro_collect fuel (mkParser false rd (ctx_of x)) acc = Ok (rev acc ++ records_of recs, p').
+Proof.
+  induction recs as [|[n it] recs IH]; intros ls x rd fuel acc Hd Hni Hx Hok E P W L; (destruct fuel as [|fuel]; [lia|]).
+  - assert (LL : (length (r_rest rd) < r_fuel rd)%nat) by (unfold wfr in W; lia).
+    pose proof (lines_loop_file ls x rd (r_fuel rd) Hx Hok E P W LL) as H. rewrite Hd in H.
+    destruct H as (c' & rd' & F & _). cbn [ro_collect]. unfold ro_next, parser_next. cbn [ps_error ps_rd ps_ctx]. rewrite F. cbn [bind].
+    eexists. rewrite rev_fast_rev, app_nil_r. reflexivity.
+  - assert (LL : (length (r_rest rd) < r_fuel rd)%nat) by (unfold wfr in W; lia).
+    pose proof (denote_no_include ls x (p_line (r_pos rd)) Hni) as Hrec. rewrite Hd in Hrec. inversion Hrec as [|? ? [r Hr] Hrec']; subst. cbn [snd] in Hr. subst it.
+    pose proof (lines_loop_file ls x rd (r_fuel rd) Hx Hok E P W LL) as H. rewrite Hd in H.
+    destruct H as (x' & ls' & rd' & F & B1 & B2 & B3 & B4 & B5 & B6 & B7 & B8 & B9).
+    assert (Hni' : no_include ls') by (apply B9; exact Hni).
+    cbn [ro_collect]. unfold ro_next, parser_next. cbn [ps_error ps_rd ps_ctx]. rewrite F. cbn [bind line_of item_of l_content l_number].
+    destruct (IH ls' x' rd' fuel (inl (mkRoLine n (rr_of r)) :: acc) B7 Hni' B1 B2 B3 B4 B5 ltac:(lia)) as (p' & Hc).
+    exists p'. rewrite Hc. cbn [rev records_of]. rewrite <- app_assoc. reflexivity.
+Qed.
+
+(* a rendered file without $INCLUDE lines, read through Parser::records_only(): exactly its records *)
+Theorem file_roundtrip_records_only ls : file_ok sctx0 ls = true -> no_include ls ->
+  exists p, ro_all (render ls) = Ok (records_of (number_lines ls), p).
+Proof.
+  intros Hok Hni. unfold ro_all, parser_new, render, number_lines. rewrite ctx0_of.
+  destruct (ro_collect_file (denote sctx0 1 ls) ls sctx0 (rd_new (render_file ls)) (S (S (length (render_file ls)))) [] eq_refl Hni) as (p & H);
     [intros ols Ho; discriminate|exact Hok|reflexivity|reflexivity|unfold wfr, rd_new; cbn; lia|unfold rd_new; cbn; lia|].
   exists p. exact H.
 Qed.
